@@ -58,6 +58,10 @@ CLAIMED = {
          "Decides that expansion is invoked wherever a named component-bearing message is stored, that every recognised bit slice is well-formed, guarded by the source's invalid value and contiguous, and the accumulator discipline. Known findings (generator-rooted): package-level never-reset accumulators, two zero-mask accumulators, one narrow shift. The component layout against the SDK and the sums over streams are not decided.",
          "Trusted: Go shift/conversion semantics; C15-4 constructor values. Not decided: layout against the 21.115 profile (workbook absent), computed sums.",
          "DESIGN.md 4 C18"),
+ "C17": ("other", "constant folding, shape checks of the value-type methods, and guard-interval extraction: exact SSA evaluation of the semicircle constructors at one representative of every interval between their comparison constants",
+         "Decides the sentinel, bounds, factors, guard structure and conversion shapes; the accepted set of NewLatitude/NewLongitude is exact for all 2^32 inputs because the argument is only compared with constants (finite set of orderings). Known finding: +90 degrees exactly is rejected. The numeric clauses (round trip within one semicircle, printed form within 2e-5, bijection of seconds) need enumeration of 2^32 values and are not decided.",
+         "Trusted: evaluator transfer functions; IEEE-754 semantics of the named operations; strconv.FormatFloat. Not decided: numeric accuracy clauses.",
+         "DESIGN.md 4 C17"),
 }
 
 NOT_APPLICABLE = {
